@@ -55,7 +55,7 @@ Section G.
   Notation flatss := (flatss tk).
   Notation erasess := (erasess tk txt num).
   Notation sizess := (sizess tk).
-  Notation wfss := (wfss tk cl lvl).
+  Notation wfss := (wfss tk cl txt num lvl).
   Notation nosel := (nosel tk cl).
   Notation flat := (flat tk).
   Notation flatp := (flatp tk).
@@ -69,9 +69,9 @@ Section G.
   Notation ends_name := (ends_name tk).
   Notation pends := (pends tk).
   Notation lead := (lead tk).
-  Notation wf := (wf tk cl lvl).
-  Notation wfpar := (wfpar tk cl lvl).
-  Notation wfpars := (wfpars tk cl lvl).
+  Notation wf := (wf tk cl txt num lvl).
+  Notation wfpar := (wfpar tk cl txt num lvl).
+  Notation wfpars := (wfpars tk cl txt num lvl).
   Notation all_triv := (all_triv tk cl).
   Notation solid := (solid tk cl).
   Notation follow_lt := (follow_lt tk cl lvl).
@@ -1206,7 +1206,7 @@ Section G.
     (forall e, forall wt, wf_eis wt e -> scoped (flat_eis e)) /\ (forall e, forall w4, wf_el w4 e -> scoped (flat_el e)) /\
     (forall e, forall wt, wf_cs wt e -> scoped (flat_cs e)).
   Proof.
-    destruct (wf_scoped tk cl lvl) as (Se & Sp & Sps & Sss & _).
+    destruct (wf_scoped tk cl txt num lvl) as (Se & Sp & Sps & Sss & _).
     assert (SE : forall e, wf 0 e -> scoped (flat e)) by (intros e H; apply (proj1 (Se e) 0 H)).
     apply ss_mutind with (P := fun s => wf_s s -> scoped (flat_s s)) (P0 := fun l => forall pe, wf_l pe l -> scoped (flat_l l))
       (P1 := fun g => forall pe, wf_g pe g -> scoped (flat_g g))
